@@ -33,6 +33,7 @@ type C17Scenario struct {
 	Jitter      []int        `json:"jitter,omitempty"`
 	DSYield     bool         `json:"ds_yield,omitempty"` // engine A: datastore accesses are yield points too
 	DSReadsOnly bool         `json:"ds_reads_only,omitempty"`
+	Canonical   bool         `json:"canonical,omitempty"` // parked goroutines ordered by role, not by arrival
 }
 
 func genC17(t *rapid.T) C17Scenario {
@@ -118,6 +119,7 @@ func runC17(t *testing.T, s C17Scenario) (res Result) {
 		jit := func(i int) {}
 		if !s.Real {
 			sc = sched.New()
+			sc.Canonical = s.Canonical
 			store.VerifSetYield(sc.Yield)
 			defer store.VerifSetYield(nil)
 			if s.DSYield {
@@ -319,6 +321,12 @@ func runC17(t *testing.T, s C17Scenario) (res Result) {
 				problems = append(problems, v)
 			}
 		}
+		if sc != nil {
+			for _, st := range sc.Trace {
+				res.TraceK = append(res.TraceK, st.K)
+				res.TraceN = append(res.TraceN, len(st.Others)+1)
+			}
+		}
 		// non-triviality from the trace
 		overlap := false
 		if sc != nil {
@@ -385,4 +393,114 @@ func TestC17Real(t *testing.T) {
 	})
 	_ = context.Background
 	_ = os.Getenv
+}
+
+// ---- bounded-exhaustive schedule enumeration for one tiny configuration ----
+
+// enumerateSchedules runs exec for every schedule (depth-first, stateless: each schedule is re-executed
+// from scratch). exec gets a tape prefix (defaults to choice 0 afterwards) and returns the choices made and
+// the number of alternatives at each step. Returns the number of schedules run and whether the space was
+// exhausted within maxRuns. mine selects the subtrees (by their first choices) this shard is responsible for.
+func enumerateSchedules(exec func(tape []int) (ks, ns []int, stop bool), maxRuns int, depth int, mine func(prefix []int) bool) (runs int, exhausted bool, nondet bool) {
+	tape := []int{}
+	for runs < maxRuns {
+		ks, ns, stop := exec(tape)
+		runs++
+		if stop {
+			return runs, false, false
+		}
+		for i := range tape {
+			if i >= len(ks) || ks[i] != tape[i] {
+				nondet = true // the same prefix did not lead to the same choices; go on from what was executed
+				break
+			}
+		}
+		// next schedule: the deepest step with an untried alternative. Inside a subtree (first `depth`
+		// choices) that belongs to another shard only the top levels are advanced.
+		lim := len(ks) - 1
+		if mine != nil && len(ks) >= depth && !mine(ks[:depth]) {
+			lim = depth - 1
+		}
+		i := lim
+		for i >= 0 && ks[i]+1 >= ns[i] {
+			i--
+		}
+		if i < 0 {
+			return runs, true, nondet
+		}
+		tape = append(append([]int{}, ks[:i]...), ks[i]+1)
+	}
+	return runs, false, nondet
+}
+
+// c17EnumConfigs are the tiny configurations whose schedules are enumerated completely (datastore reads
+// and the store's own yield points are the scheduling points, parked goroutines are ordered by role).
+//
+//	0: store [1,2]; write batch 4 (appended headers stay pending); writers Append(3), Append(4); DeleteRange(1,2)
+//	1: as 0 with write batch 1 (every append is written out by the flush loop)
+//	2: store [1,2]; batch 4; one writer Append(3,4); one reader (1 round of Head, Height, GetByHeight); DeleteRange(1,2)
+//	3: store [1,2,3]; batch 2; one writer Append(4,5) + Sync + read-back; DeleteRange(1,3)
+//	4: store [1,2]; batch 4; writers Append(3), Append(3..4) (overlap); no deleter; one reader (1 round)
+var c17EnumConfigs = []C17Scenario{
+	{Cfg: StoreCfg{Batch: 4, StoreCache: 8, IndexCache: 8}, Prefill: 2,
+		Writers: [][]C12Chunk{{{Off: 0, N: 1}}, {{Off: 1, N: 1}}}, SyncAfter: []bool{false, false}, DeleteK: 1},
+	{Cfg: StoreCfg{Batch: 1, StoreCache: 8, IndexCache: 8}, Prefill: 2,
+		Writers: [][]C12Chunk{{{Off: 0, N: 1}}, {{Off: 1, N: 1}}}, SyncAfter: []bool{false, false}, DeleteK: 1},
+	{Cfg: StoreCfg{Batch: 4, StoreCache: 8, IndexCache: 8}, Prefill: 2,
+		Writers: [][]C12Chunk{{{Off: 0, N: 2}}}, SyncAfter: []bool{false}, Readers: 1, ReadSteps: 1, DeleteK: 1},
+	{Cfg: StoreCfg{Batch: 2, StoreCache: 8, IndexCache: 8}, Prefill: 3,
+		Writers: [][]C12Chunk{{{Off: 0, N: 2}}}, SyncAfter: []bool{true}, DeleteK: 2},
+	{Cfg: StoreCfg{Batch: 4, StoreCache: 8, IndexCache: 8}, Prefill: 2,
+		Writers: [][]C12Chunk{{{Off: 0, N: 1}}, {{Off: 0, N: 2}}}, SyncAfter: []bool{false, false}, Readers: 1, ReadSteps: 1},
+}
+
+func c17EnumScenario(cfg int, tape []int) C17Scenario {
+	s := c17EnumConfigs[cfg]
+	s.Tape, s.DSYield, s.DSReadsOnly, s.Canonical = tape, true, true, true
+	return s
+}
+
+func TestC17Enum(t *testing.T) {
+	col := evidFor("C17")
+	maxRuns := envInt("VERIF_ENUM_MAX", 40000)
+	shard, shards := envInt("VERIF_SHARD_INDEX", 0), envInt("VERIF_SHARDS", 1)
+	mine := func(prefix []int) bool {
+		h := 0
+		for _, c := range prefix {
+			h = h*7 + c + 1
+		}
+		return h%shards == shard
+	}
+	only := envInt("VERIF_ENUM_CFG", -1)
+	for cfg := range c17EnumConfigs {
+		if only >= 0 && cfg != only {
+			continue
+		}
+		if only < 0 && tier() != "thorough" && cfg != 0 && cfg != 4 {
+			continue // the quick tier enumerates the two smallest configurations
+		}
+		var longest int
+		runs, exhausted, nondet := enumerateSchedules(func(tape []int) ([]int, []int, bool) {
+			s := c17EnumScenario(cfg, tape)
+			res := runC17(t, s)
+			col.Case(s, res.NonTrivial, nil, "enumerated_schedule")
+			if len(res.TraceK) > longest {
+				longest = len(res.TraceK)
+			}
+			if res.Verdict != "" {
+				p := evidWriteReplay("C17", s, res.Verdict)
+				t.Fatalf("C17 violated: %s\nconfiguration %d, schedule: %v\nreplay: %s", res.Verdict, cfg, res.TraceK, p)
+			}
+			return res.TraceK, res.TraceN, false
+		}, maxRuns, 5, mine)
+		col.AddExtra(fmt.Sprintf("enum_cfg%d_schedules", cfg), int64(runs))
+		col.AddExtra("enumerated_schedules", int64(runs))
+		if exhausted {
+			col.AddExtra(fmt.Sprintf("enum_cfg%d_shards_exhausted", cfg), 1)
+		}
+		if nondet {
+			col.AddExtra(fmt.Sprintf("enum_cfg%d_nondeterministic", cfg), 1)
+		}
+		t.Logf("C17 enumeration cfg %d: %d schedules, exhausted=%v, nondeterministic=%v, longest=%d steps", cfg, runs, exhausted, nondet, longest)
+	}
 }
